@@ -69,8 +69,13 @@ type Channel struct {
 // NewChannel communicates the creation of a new channel with the
 // server.
 func (tds *Conn) NewChannel() (*Channel, error) {
+	// The channel ID is allocated and the channel registered in one step
+	// - other callers of NewChannel and the goroutine reading from the
+	// server access the channel map concurrently.
+	tds.tdsChannelsLock.Lock()
 	channelId, err := tds.getValidChannelId()
 	if err != nil {
+		tds.tdsChannelsLock.Unlock()
 		return nil, fmt.Errorf("error getting channel ID: %w", err)
 	}
 
@@ -90,6 +95,7 @@ func (tds *Conn) NewChannel() (*Channel, error) {
 	}
 
 	tds.tdsChannels[channelId] = tdsChan
+	tds.tdsChannelsLock.Unlock()
 
 	// channel 0 needs no setup
 	if channelId == 0 {
